@@ -20,6 +20,7 @@ type Case struct {
 	Amb   string   `json:"amb,omitempty"`   // where a variable named like EVERY parameter is visible: let | caller | closure | global
 	Split int      `json:"split,omitempty"` // leading arguments passed outside the spread list (apply, multiple-value-call)
 	Fn    string   `json:"fn,omitempty"`
+	Upper string   `json:"upper,omitempty"` // letter-case relation: which occurrences of the parameter names are written in upper case (decl | kw | body | bare)
 }
 
 // part B cases are spread over the run (one every stride cases) so that they
@@ -66,6 +67,7 @@ func init() {
 			"the same probes on 176 variant lambda lists (computed init forms, init forms reading earlier parameters, bare-variable init forms, &allow-other-keys, &key without names, init forms naming a LATER parameter); " +
 			"every grid lambda list called where a variable named like EVERY parameter (required ones included) is visible - in a let around the call, as a parameter of the calling function, in the let the function was created in (closure), as a defvar global - x 5 vectors (one/all required arguments missing, exact, all positionals, a key): a visible name is never an argument; every optional and key SUPPLIED with nil, t or a value equal to its own default; " +
 			"the traced form of every grid lambda list - each optional/key/aux init form is (c04-init N earlier...), a harness builtin with a recorded side effect that reads every earlier parameter - x 26 vectors, so that evaluation order, exactly-once, not-when-supplied and before-the-body are observed; " +
+			"a letter-case block - slip's symbols are not case sensitive, so the 768 grid lambda lists x 3 vectors are run with the parameter names written in upper case in the lambda list only, in the keyword arguments only, in the body only, or as a bare last body form, and every route must give exactly what the all-lower-case text gives (relation monitor, no model); " +
 			"then seeded vectors of length 0..8 (values: integers, nil, t, own default; a third on traced lambda lists). Every case is called through defun (evaluated and compiled), funcall of the symbol, funcall/apply of a lambda, a lambda in operator position and multiple-value-call. " +
 			"Oracle: too few/too many arguments must be a condition with the body marker not run; every parameter value and the trace of init-form side effects must equal the binder's; unknown keys are accepted and ignored (slip documents allow-other-keys as always true); " +
 			"only an odd keyword tail and a non-keyword in key position are left open (error, or correct positional bindings). " +
